@@ -54,6 +54,10 @@ structure Lib (α : Type) where
   hyperUpper : Hgd → Int → α
   /-- `ChiSquare.cumulative(x, df, lowerTail = false, logP = false)` -/
   chisqTail : α → α → α
+  /-- `pnorm(x)` = `Normal.cumulative(x, 0, 1, lowerTail = true, logP = false)`; not called by the code of the checked revision -/
+  normCdf : α → α
+  /-- `math.sqrt` in the exact model (no rational square root); the Float model uses IEEE `Float.sqrt` directly -/
+  sqrt : α → α
   /-- the list `dnhyper(ncp)` over the support `lo … hi` (the Scala computes it with `math.log` / `math.exp`; the
   translator pins that text and the exact model uses the algebraic meaning, see `dnhyperQ` / `dnhyperF`) -/
   dnhyper : Hgd → Int → Int → α → List α
